@@ -371,6 +371,11 @@ func runC10(p *P, r *R) {
 		})
 	}
 
+	// ---- R10.8 a Close() that met a running callback is always finished: the callback goroutine decides by the
+	// close request (callbackCloseState), not by the state it happens to find (which the peer may have changed)
+	r.ob("R10.8", "a Close() issued while a callback runs is finished by the callback goroutine whatever state the stream is in", p.pos(closeExp.Pos()), c11DeferredCloseFinished(p), true,
+		"Close() returned nil: the stream must end up closed and unregistered even if the peer half-closed it first")
+
 	// ---- R10.4 callbacks only behind a won CAS
 	nCb := 0
 	for _, f := range p.fnList {
